@@ -5,8 +5,9 @@ and per step, the corresponding single run, keyed by tower name in configuration
 cache) (its own contract: C13; its purity: C12/C15).  Executor.map is used under its
 ordering contract (DESIGN 3.2): results in task order whatever the completion order and the
 worker count.  Precondition (recorded): tower names pairwise distinct.
-The `both` strategy (flattened index arithmetic t*n_time+i) is NOT brought under contract
-here; it is covered by the bounded stand-in only.
+The `both` strategy is handled with a row-structured list (values.BList): row boundaries are ghost
+offsets off(t) (off(0)=0, off(t+1)=off(t)+n_time), so the flattened position t*n_time+i never has to be
+computed and all obligations stay linear.
 """
 import z3
 
@@ -187,6 +188,22 @@ class Pool:
         return False
 
     def map(self, fn, tasks):
+        if isinstance(tasks, values.BList):
+            run = sym.engine()
+            t0, i0 = sym.fresh_int("task_row"), sym.fresh_int("task_col")
+            run.ctx_assuming = [tasks.in_domain(t0, i0)]
+            try:
+                fn(tasks.elem2(t0, i0))
+            finally:
+                run.ctx_assuming = []
+
+            def lazy2(t, i):
+                run.quiet = getattr(run, "quiet", 0) + 1
+                try:
+                    return fn(tasks.elem2(t, i))
+                finally:
+                    run.quiet -= 1
+            return values.BList(tasks.rows, tasks.ncols, tasks.partial, lazy2, name="pool.map")
         if isinstance(tasks, SList):
             run = sym.engine()
             # the mapped function's preconditions are checked once, at a generic task index
@@ -227,10 +244,33 @@ def generate_parallel(ctx):
     harness.define(ctx, ns, MOD, "_worker_timeseries")
     ns["ProcessPoolExecutor"] = Pool
 
-    class Unsupported(loops.Constructive):
-        def on_enter(self, ctl):
-            raise sym.Undecided("strategy 'both': flattened (tower, step) index arithmetic is not under contract (bounded only)")
-    f = harness.define(ctx, ns, MOD, "run_bldfm_parallel", loop_specs={0: TimeLoop(st), 1: Unsupported(), 3: Unsupported()})
+    class BothOuter(loops.Constructive):
+        """tasks after t towers: t complete rows (config, tower_t', i'), i' < n_time"""
+        props = PROPS
+
+        def state_at(self, ctl, t):
+            st["both_t"] = t
+            return {"tasks": values.BList(t, st["n_time"], 0, lambda tt, ii: (st["config"], st["tower"](tt), num(ii)), name="tasks")}
+
+        def iter_state(self, ctl, t):
+            s_ = self.state_at(ctl, t)
+            st["both_t"] = t
+            return s_
+
+    class BothInner(loops.Constructive):
+        props = PROPS
+
+        def state_at(self, ctl, i):
+            return {"tasks": values.BList(st["both_t"], st["n_time"], i, lambda tt, ii: (st["config"], st["tower"](tt), num(ii)), name="tasks")}
+
+    class BothRegroup(loops.Constructive):
+        """results after t towers: tower_k -> row k of the flat results; idx = off(t)"""
+        props = PROPS
+
+        def state_at(self, ctl, t):
+            return {"results": SDict(t, lambda k: st["tower"](k).name, lambda k: st["series"](st["tower"](k)), name="results"),
+                    "idx": values.BList.off(t, st["n_time"])}
+    f = harness.define(ctx, ns, MOD, "run_bldfm_parallel", loop_specs={0: TimeLoop(st), 1: BothOuter(), 2: BothInner(), 3: BothRegroup()})
 
     def setup(run, strategy, workers_given):
         config, n_time, n_tow, tower = make_world(run)
@@ -250,7 +290,7 @@ def generate_parallel(ctx):
     def worker_single_spec(config, tw, i):
         return Op("interface.run_bldfm_single", {"config": config, "tower": tw, "met_index": i, "surface_flux": None, "cache": None})
 
-    for strategy in ("towers", "time", "unknown"):
+    for strategy in ("towers", "time", "both", "unknown"):
         for workers_given in (True, False):
             def thunk(run, strategy=strategy, workers_given=workers_given):
                 config, n_time, n_tow, tower, mw, cfgmod = setup(run, strategy, workers_given)
@@ -259,9 +299,9 @@ def generate_parallel(ctx):
                 if strategy == "towers":
                     st.update({"tower": tower})
                     want = SDict(n_tow, lambda k: tower(k).name, lambda k: series_op(config, tower(k), None), name="spec")
-                elif strategy == "time":
+                elif strategy in ("time", "both"):
                     ser = lambda tw: SList(n_time, lambda i: worker_single_spec(config, tw, i), name="series")  # noqa: E731
-                    st.update({"tower": tower, "series": ser})
+                    st.update({"tower": tower, "series": ser, "n_time": n_time, "config": config})
                     want = SDict(n_tow, lambda k: tower(k).name, lambda k: ser(tower(k)), name="spec")
                 flux = None
                 out = harness.call(run, f, config, max_workers=mw, parallel_over=(strategy if strategy != "unknown" else "rows"),
